@@ -1,5 +1,7 @@
 //! C14 — the pool's admission gate: fee floor, NRD variant rule, fee / weight arithmetic.
 base_uses!();
+#[allow(unused_imports)]
+use ::grin_keychain;
 use crate::{env, nd};
 use grin_core::core::block::{BlockHeader, HeaderVersion};
 use grin_core::core::hash::Hash;
@@ -267,9 +269,21 @@ pub mod tag {
 	}
 }
 
+/// model of BlindingFactor::add over the E7 scalar group (the real one is a
+/// filter / filter_map / collect chain around blind_sum whose symbolic execution does not finish;
+/// `BlindingFactor::split`, the same arithmetic without the chain, is decided under C20)
+#[cfg(kani)]
+pub fn bf_add_model(a: &BlindingFactor, b: &BlindingFactor, _secp: &grin_util::secp::Secp256k1) -> Result<BlindingFactor, grin_keychain::Error> {
+	let x = a.as_ref();
+	let y = b.as_ref();
+	let r = (x[0] as u16 | (x[1] as u16) << 8).wrapping_add(y[0] as u16 | (y[1] as u16) << 8);
+	Ok(BlindingFactor::from_secret_key(crate::secp_model::key_of(r)))
+}
+
 proof! {
 	[secp, hash_mix, clock, sort]
 	#[cfg_attr(kani, kani::stub(grin_core::core::transaction::Transaction::validate, tag::validate))]
+	#[cfg_attr(kani, kani::stub(grin_keychain::BlindingFactor::add, bf_add_model))]
 	fn add_to_pool_gate_sequencing() {
 		// TransactionPool::add_to_pool on empty pools, one transaction, with the chain, the
 		// adapter and standalone validation answering arbitrarily: the transaction is admitted
@@ -346,10 +360,68 @@ proof! {
 	}
 }
 
+proof! {
+	[secp, hash_mix, clock, sort]
+	#[cfg_attr(kani, kani::stub(grin_core::core::transaction::Transaction::validate, tag::validate))]
+	#[cfg_attr(kani, kani::stub(grin_keychain::BlindingFactor::add, bf_add_model))]
+	fn pool_add_validates_against_chain() {
+		// Pool::add_to_pool (the aggregate-and-validate step behind both the public pool and the
+		// stempool) on an empty pool: the entry is stored ONLY IF validation of the aggregate
+		// (here the transaction itself) ran and accepted, the chain's utxo check passed, and the
+		// kernel sums balance on top of the chain's block sums; a refusal leaves the pool empty
+		#[cfg(kani)]
+		{
+			use crate::secp_model as m;
+			use grin_pool::types::PoolEntry;
+			env::set_chain_type(grin_core::global::ChainTypes::Mainnet);
+			env::set_nrd_enabled(false);
+			env::set_accept_fee_base(0);
+			let (vi, ri): (u16, u16) = (nd::any(), nd::any());
+			let (vk, rk): (u16, u16) = (nd::any(), nd::any());
+			nd::assume((vi != 0 || ri != 0) && (vk != 0 || rk != 0));
+			let fee: u64 = nd::any();
+			nd::assume(fee < (1 << 16));
+			let off: u16 = nd::any();
+			let tx = Transaction {
+				offset: BlindingFactor::from_secret_key(m::key_of(off)),
+				body: TransactionBody {
+					inputs: Inputs::CommitOnly(vec![CommitWrapper::from(m::pack(vi, ri))]),
+					outputs: vec![],
+					kernels: vec![TxKernel { features: KernelFeatures::Plain { fee: fee_fields(fee, 0) }, excess: m::pack(vk, rk), excess_sig: Signature::from_raw_data(&[1u8; 64]).unwrap() }],
+				},
+			};
+			unsafe {
+				tag::VALID_NO_LIMIT = nd::any();
+			}
+			let chain = SChain { maturity_ok: true, lock_ok: true, utxo_ok: nd::any() };
+			let u_ok = chain.utxo_ok;
+			let mut pool = grin_pool::Pool::new(Arc::new(chain), "p".to_string());
+			let header = BlockHeader::default();
+			let r = pool.add_to_pool(PoolEntry::new(tx, TxSource::Broadcast), None, &header);
+			// balance on top of zero block sums and a zero header offset (model group, mod 2^16):
+			// 0 - input + fee = excess  and  0 - r_input = r_excess + offset
+			let balanced = 0u16.wrapping_sub(vi).wrapping_add(fee as u16) == vk && 0u16.wrapping_sub(ri) == rk.wrapping_add(off);
+			if r.is_ok() {
+				check!(unsafe { tag::NO_LIMIT_CALLS } >= 1 && unsafe { tag::VALID_NO_LIMIT }, "stored => validation of the pool aggregate ran and accepted");
+				check!(unsafe { UTXO_ASKED } >= 1 && u_ok, "stored => checked against the chain's utxo set");
+				check!(balanced, "stored => the kernel sums balance on top of the chain's block sums");
+				check!(pool.size() == 1, "the entry is in the pool");
+			} else {
+				check!(pool.size() == 0, "a refusal leaves the pool empty");
+			}
+			cover!(r.is_ok(), "stored");
+			cover!(r.is_err() && u_ok && unsafe { tag::VALID_NO_LIMIT }, "refused for its sums only");
+			core::mem::forget(r);
+			core::mem::forget(pool);
+		}
+	}
+}
+
 pub const HARNESSES: &[(&str, fn())] = &[
 	("c14::pool_refuses_low_fee", pool_refuses_low_fee),
 	("c14::pool_refuses_nrd_unless_enabled_and_hf3", pool_refuses_nrd_unless_enabled_and_hf3),
 	("c14::fee_and_weight_arithmetic", fee_and_weight_arithmetic),
 	("c14::tx_fee_gate_inputs", tx_fee_gate_inputs),
 	("c14::add_to_pool_gate_sequencing", add_to_pool_gate_sequencing),
+	("c14::pool_add_validates_against_chain", pool_add_validates_against_chain),
 ];
